@@ -26,6 +26,8 @@ def regen(ctx):
     from translate import c18_tables, c18_registries, c18_shapes
     ctx.write_gen('C18Tables', c18_tables.generate())
     ctx.write_gen('C18Shapes', c18_shapes.generate())
+    from translate import c18_fieldsrc
+    ctx.write_gen('C18FieldSrc', c18_fieldsrc.generate())
     text, translated, untranslated = c18_registries.translate()
     ctx.write_gen('C18Registry', text)
     ctx.extra['registry_translated'] = len(translated)
@@ -1533,6 +1535,12 @@ def sec_registries(ctx, B):
             if bad:
                 ctx.violation(bad[0], bad[1], {'kind': 'class', 'proto': e.proto, 'class': e.cls.__name__,
                                                'seed': ctx.seed, 'tier': ctx.tier, 'index': k})
+        for wi, wire in enumerate(R.wire_cases(rng, e)):
+            bad = R.wire_roundtrip(e, wire)
+            ctx.case((key, 'wire', wire), True)
+            ctx.count(f'registry.{e.proto}.wire-cases')
+            if bad:
+                ctx.violation(bad[0], bad[1], {'kind': 'class-wire', 'proto': e.proto, 'class': e.cls.__name__, 'data': wire.hex()})
         if done:
             covered[key] = done
             ctx.count(f'registry.{e.proto}.cases', done)
@@ -2051,6 +2059,12 @@ def oracle_replay(r):
         return None
     if k == 'avc':
         return avc_value_oracle(r['frame'], r['args'])
+    if k == 'class-wire':
+        from translate import c18_registries as R
+        for e in R.registries():
+            if e.proto == r['proto'] and e.cls.__name__ == r['class']:
+                return R.wire_roundtrip(e, bytes.fromhex(r['data']))
+        return ('replay:unsupported', 'class not registered any more')
     if k == 'folder-items':
         return folder_items_oracle(r['items'], r['seed'])
     if k == 'adv-rx':
